@@ -12,8 +12,18 @@ sys.path.insert(0, "/verif/mutants")
 from catalog import MUTANTS
 REPO = "/repo"
 
+def find_commit(subject):
+    log = subprocess.run(["git", "-C", REPO, "log", "--format=%h %s"], capture_output=True, text=True).stdout.splitlines()
+    return next(l.split()[0] for l in log if subject in l)
+
 def apply(m):
     name, path, old, new, _ = m
+    if path == "@revert":
+        # natural mutant: take one "fix:" commit back out of the working tree
+        h = find_commit(old)
+        diff = subprocess.run(["git", "-C", REPO, "show", h], capture_output=True, text=True).stdout
+        subprocess.run(["git", "-C", REPO, "apply", "-R"], input=diff, text=True, check=True)
+        return
     p = os.path.join(REPO, path)
     s = open(p).read()
     if s.count(old) != 1:
@@ -21,7 +31,7 @@ def apply(m):
     open(p, "w").write(s.replace(old, new))
 
 def restore(m):
-    subprocess.run(["git", "-C", REPO, "checkout", "--", m[1]], check=True)
+    subprocess.run(["git", "-C", REPO, "checkout", "--", "." if m[1] == "@revert" else m[1]], check=True)
 
 def run_check(pid):
     t = time.time()
